@@ -1,6 +1,7 @@
 """C04 - Marshal output is well-formed JSON and round-trips, under every option set."""
 import json
 import os
+import time
 
 from . import common as c
 from . import C03_lib as L
@@ -136,7 +137,10 @@ def run(ctx):
         "round trip is claimed for types without interfaces, user Marshal methods, embedded pointers, bool/float map keys; values without invalid UTF-8, NaN/Inf, cycles",
         "exempt from well-formedness by the statement itself: NoQuoteTextMarshaler with a TextMarshaler value; NoValidateJSONMarshaler without CompactMarshaler with a Marshaler value",
     ]
+    t0 = time.time()
+    ctx.cov["phase_s"] = {}
     p_ok = c.standard_P(ctx, CLAIM["gens"], L.SUPPORT + ["Enc/C04Proofs.v"])
+    ctx.cov["phase_s"]["P"] = round(time.time() - t0, 1)
     ctx.problems = []
     if not p_ok:
         ctx.problems.append(("P", getattr(ctx, "p_fail", "proof half failed")))
@@ -144,7 +148,9 @@ def run(ctx):
     if not ok:
         ctx.violation("harness does not build against the repository: " + hb[-1500:], {"build": hb}, False)
         return
+    t1 = time.time()
     mok, mexe = c.build_model("C03")
+    ctx.cov["phase_s"]["model_build"] = round(time.time() - t1, 1)
     if not mok:
         ctx.problems.append(("T", "model extraction/driver build failed: " + mexe[-1200:]))
         mexe = None
@@ -162,7 +168,7 @@ def run(ctx):
     dist = {"regime": {}, "flag_bit_set": {b: 0 for b in FLAGBITS}, "result": {}}
     viol, seen_known, distinct = [], {}, set()
     if ctx.tier == "quick":
-        rounds = [("C04", 1000, ["-flags", "rand:2"])]
+        rounds = [("C04", 600, ["-flags", "rand:2"])]
     else:
         rounds = [("C04", 8000, ["-flags", "rand:4"]), ("C04all", 0, ["-flags", "all", "-maxval", "2500"])]
     for name, n, extra in rounds:
@@ -176,6 +182,7 @@ def run(ctx):
                        "corpus), JIT and interpreter process; per successful run json.Valid and decode-and-compare with sonic and encoding/json")
     ctx.cov["distribution"] = dist
     ctx.cov["counts"] = st
+    ctx.cov["phase_s"].update(L.TIMES)
     ctx.cov["traces_validated_against_impl"] = st["tie"] - st["tie_bad"]
     ctx.sample({"option_words_covered": len(set(k[2] for k in distinct))})
     shown = {}
